@@ -36,11 +36,41 @@ def run(chk, repo: Repo):
     _r1(chk, repo)
     _r2(chk, repo)
     _r2_constant_writers(chk, repo)
+    _r2_posterior_builders(chk, repo)
     _r3_r4(chk, repo)
     # R5 shared with C11-R3
     from . import c11
     from .common import shadow
     shadow(chk, "C11-R3", "C01-R5", lambda c: c11._r3(c, repo))
+
+
+POSTERIOR_BUILDERS = {
+    # (module, function) -> why a Posterior may be constructed there
+    ("cuqi/distribution/_joint_distribution.py", "_reduce_to_single_density"): "the reduction itself; the result goes through _add_constants_to_density",
+    ("cuqi/sampler/_rto.py", "__init__"): "legacy LinearRTO builds likelihood and prior from the user's 5-tuple; no reduced density is involved",
+}
+
+
+def _r2_posterior_builders(chk, repo):
+    """who may construct a Posterior: a Posterior assembled from the likelihood and prior of an existing (reduced) target starts with constant 0, i.e. without the
+    log-densities of the variables that were fixed to obtain that target. Construction sites are an explicit table; a new site must hand its result to
+    _add_constants_to_density (or be confirmed and tabled)."""
+    from ..index import enclosing_function
+    n = 0
+    for m in repo.modules.values():
+        for c in ast.walk(m.tree):
+            if isinstance(c, ast.Call) and (call_name(c) or "").split(".")[-1] == "Posterior" and len(c.args) + len(c.keywords) >= 2:
+                ef = enclosing_function(c)
+                key = (m.rel, ef.name if ef else "<module>")
+                n += 1
+                wrapped = isinstance(getattr(c, "_parent", None), ast.Call) and (call_name(c._parent) or "").endswith("_add_constants_to_density")
+                ok = key in POSTERIOR_BUILDERS or wrapped
+                chk.add("C01-R2", f"{m.rel}:{key[1]}/Posterior-constructed", ok, f"{m.rel}:{c.lineno}",
+                        POSTERIOR_BUILDERS.get(key, "result handed to _add_constants_to_density"),
+                        f"`{unparse(c)[:70]}` assembles a new Posterior from parts: its constant starts at 0, so the log-densities folded into the target these parts "
+                        f"come from (hyper-parameters fixed earlier) are dropped - conditioning through this path no longer equals the joint log-density", c)
+    if n < 2:
+        raise AnchorError(f"{n} Posterior constructions found, 2 confirmed by hand")
 
 
 def _r2_constant_writers(chk, repo):
